@@ -96,11 +96,35 @@ CLAIMED = {
         "Trusted: reference order (f32 partial_cmp, char order, revision-or-0).",
         "DESIGN.md §3 C16",
     ),
+    "C08": (
+        "proptest-generated datagram sessions on real loopback UDP sockets (lock-step), blocking and tokio adaptors, frame-in-isolation oracle",
+        "Sessions of up to 400 datagrams (1..4 frames each, 4..1020 bytes, tens to hundreds of KB in total, i.e. many receive-buffer cycles) must deliver every packet intact and in order; every written packet must arrive as exactly one datagram equal to its frame.",
+        "Trusted: loopback UDP neither drops nor reorders in lock-step use; the 2 s read timeout is only a truncation detector (never fires in a passing run).",
+        "DESIGN.md §3 C08",
+    ),
+    "C17": (
+        "proptest-generated structured files from an independent writer, every truncation point, hostile count injection, random bytes, counting allocator",
+        "Generated PTH/SMX files must parse, re-serialise identically and re-parse equal; every cut inside the declared content must be rejected (all cut points of fixed files and of the first 4 KB of the shipped files, random cut points of generated files); hostile counts (-1, i32::MIN, 2^31-1, count+1) and random bytes must neither panic nor allocate beyond 64 KiB + 64 x input; the file API must agree with the in-memory reader.",
+        "Trusted: the independent file writer in the harness; thread-local counting allocator. A libFuzzer target with the same oracle is in /verif/fuzz.",
+        "DESIGN.md §3 C17",
+    ),
+    "C18": (
+        "model-based testing of builder call sequences (proptest) + complete enumeration of the 1024 flag states + loopback capture of the handshake",
+        "Random setter sequences are applied to the builder and to a plain struct model; isi() must not panic and must equal the model's ISI. connect_blocking / connect_async against a loopback TCP listener / UDP peer must send exactly one frame equal to Codec(mode).encode(model ISI).",
+        "Trusted: the struct model (later calls override earlier ones, documented defaults); loopback sockets.",
+        "DESIGN.md §3 C18",
+    ),
     "C19": (
         "schedule exploration with a harness-owned scheduler: manual polling of the read future on a paused-clock runtime, complete enumeration of drop subsets for small sessions + proptest drop schedules",
         "The read future is polled by hand and dropped at chosen Pending polls; every subset of the first 14 polls for three scripts x 2 modes is enumerated, plus generated sessions with read/write Pending scripts, piecewise write acceptance and interleaved application writes. Delivered results must equal the uninterrupted run; the outgoing stream must consist of whole frames with one reply per keep-alive.",
         "Trusted: dropping between polls is the only cancellation mechanism; scripted transport. OS-level timing is not modelled.",
         "DESIGN.md §3 C19",
+    ),
+    "C20": (
+        "proptest-generated message partitions served by a loopback tokio-tungstenite server; differential against the TCP stream model",
+        "Frame sequences are cut into binary messages (one / several / split frames, empty and oversized messages) with Text/Ping/Pong interleaved and a close handshake; packets delivered through the crate's WebsocketStream must equal the TCP model's list and end in Disconnected; raw reads with caller buffers of 1..2048 bytes must return exactly the payload; every write must be one binary message.",
+        "Trusted: tokio-tungstenite on loopback; the C05 stream model. The 10 s session limit only detects lost data.",
+        "DESIGN.md §3 C20",
     ),
 }
 
